@@ -7,9 +7,7 @@ import (
 	"flag"
 	"fmt"
 	"os"
-	"runtime/pprof"
 	"strings"
-	"time"
 
 	sdk "github.com/cosmos/cosmos-sdk/types"
 
@@ -29,7 +27,7 @@ type plan struct {
 func planFor(tier string) plan {
 	if tier == "thorough" {
 		return plan{Alpha: Alphabet{MaxLocks: 4, FullUndel: true, Probes: true},
-			Seeds: []seedPlan{{"init", 5}, {"delegated", 5}, {"undelegating", 5}, {"mixed", 4}}}
+			Seeds: []seedPlan{{"mixed", 4}, {"undelegating", 4}, {"init", 5}, {"delegated", 5}}}
 	}
 	return plan{Alpha: Alphabet{MaxLocks: 3, FullUndel: false, Probes: false},
 		Seeds: []seedPlan{{"init", 4}, {"delegated", 3}, {"undelegating", 3}, {"mixed", 3}}}
@@ -127,11 +125,6 @@ func main() {
 		core.Finish(f, r)
 		return
 	}
-	if pf := os.Getenv("VERIF_CPUPROFILE"); pf != "" {
-		fh, _ := os.Create(pf)
-		pprof.StartCPUProfile(fh)
-		defer pprof.StopCPUProfile()
-	}
 	pl := planFor(f.Tier)
 	cfg := DefaultConfig()
 	w := NewWorld(cfg)
@@ -143,31 +136,6 @@ func main() {
 		Apply:     w.Apply,
 		Check:     w.Check,
 		LedgerKey: func(l *Ledger) []byte { return l.digest() },
-	}
-	if os.Getenv("VERIF_DEBUG") == "stores" {
-		ctx, _, _ := buildSeed(w, "mixed")
-		for _, n := range core.StoreNames(w.App) {
-			t0 := time.Now()
-			cnt := 0
-			it := ctx.KVStore(w.App.GetKVStoreKey()[n]).Iterator(nil, nil)
-			for ; it.Valid(); it.Next() {
-				cnt++
-			}
-			it.Close()
-			fmt.Fprintf(os.Stderr, "store %-24s keys=%6d iter=%s\n", n, cnt, time.Since(t0))
-		}
-		t0 := time.Now()
-		for i := 0; i < 20; i++ {
-			core.StateHash(w.App, ctx, nil)
-		}
-		fmt.Fprintf(os.Stderr, "full hash: %s\n", time.Since(t0)/20)
-		t0 = time.Now()
-		l := w.NewLedger()
-		c2, _ := w.Env.Ctx.CacheContext()
-		for i := 0; i < 20; i++ {
-			c2, _ = w.boundary(c2, l, time.Second, func(a, s, d string) {})
-		}
-		fmt.Fprintf(os.Stderr, "boundary: %s\n", time.Since(t0)/20)
 	}
 	allSeen := core.NewSeen()
 	runs := map[string]interface{}{}
@@ -204,7 +172,7 @@ func main() {
 			if minDepth == 0 || sp.Depth < minDepth {
 				minDepth = sp.Depth
 			}
-			runs[fmt.Sprintf("%s/depth%d", sp.Name, sp.Depth)] = map[string]interface{}{"seed_ops": fmt.Sprint(seedOps(sp.Name, cfg)), "seed_state": describe(l), "transitions_this_shard": r.Transitions - before}
+			runs[fmt.Sprintf("%s/depth%d", sp.Name, sp.Depth)] = map[string]interface{}{"seed_ops": fmt.Sprint(seedOps(sp.Name, cfg)), "seed_state": describe(l), "transitions_this_shard": r.Transitions - before, "completed_this_shard": r.Exhaustive}
 			for k := range ex.Seen {
 				var h [32]byte
 				copy(h[:], k[:])
